@@ -38,6 +38,9 @@ TAPS = [
 TAPNAMES = {"t_ln", "t_cl", "t_cs", "t_c"}
 
 
+# thorough tier: additionally a coverage-guided campaign (vf/fuzz.py) over the same strategy and oracle
+FUZZ = {"runs": 2000, "procs": 8}
+
 def budget(tier):
     return 2400 if tier == "quick" else 40000
 
